@@ -113,8 +113,6 @@ THEOREMS = [
     "PV.WiringMs.C03_run_multi_literals",
     "PV.WiringMs.C03_run_multi_sites",
     # the multi-setup conclusion on the tables SSI_poles returns (Props/C03Table.lean)
-    "PV.C03Table.C03_e2e_table",
-    "PV.C03Table.C03_columnFilled",
     "PV.C03Table.Ex.table",
 ]
 RULE = (
